@@ -439,7 +439,7 @@ def run(rep, prog, thorough):
     check_matches(rep, prog)
     check_regexes(rep, prog)
     from ..effects import check_text_decoding
-    check_text_decoding(rep, prog, "C14.R2.first-match", "io_drawer.ilog", "the PTE table header file")
+    check_text_decoding(rep, prog, "C14.R2.first-match", "io_drawer", "a definition file of the IO drawer decoders")
     from ..effects import check_no_memoised
     check_no_memoised(rep, prog, 'C14.R2.first-match', ['io_drawer'], 'the PTE table of an earlier decode is reused although the header file given now may differ')
     c = I_const(prog)
